@@ -238,6 +238,7 @@ def run(idx, rep, tier):
     # (1 / 1e-40 = inf, and 0 * inf = nan: the zero right-hand-side column comes back as nan instead of exactly 0)
     F32_TINY = 1.1754944e-38
     n_recip = 0
+    n_zero = [0]
     for f in fns:
         if f.cls is not None:
             continue
@@ -272,12 +273,33 @@ def run(idx, rep, tier):
                 rep.decide(not tiny, "finite-reciprocal", f"{f.short}:reciprocal#{n_recip}", f"`{ast.unparse(n)}`: the denominator may be the guard constant {sorted(lits)}" +
                            ("" if not tiny else f"; {tiny[0]:g} is below the smallest normal single-precision number, so the reciprocal is inf in float32 and a zero numerator gives nan "
                             "(a zero right-hand-side column is returned as nan instead of exactly 0)"), detail="" if not tiny else "overflow", locs=[idx.loc(f.module, n)])
+        # ---- "is zero" thresholds: a comparison of a norm / magnitude with a literal constant decides that a column (or a denominator) is
+        # treated as exactly zero -- the column is then neither normalised nor iterated.  Every right-hand side that is a NORMAL number of a
+        # supported precision has to stay outside: the constant must not exceed the smallest normal single-precision number, otherwise
+        # columns with norms between it and the constant (perfectly ordinary float32 / float64 data) are returned as zero and the solve is
+        # no longer linear in b
+        for n in df.body_nodes(f.node):
+            if isinstance(n, ast.Compare) and len(n.ops) == 1 and isinstance(n.ops[0], (ast.Lt, ast.LtE, ast.Gt, ast.GtE)):
+                small_side = n.comparators[0] if isinstance(n.ops[0], (ast.Lt, ast.LtE)) else n.left
+                other = n.left if small_side is n.comparators[0] else n.comparators[0]
+                lits = {x for x in literals(small_side) if x != 0}
+                mag = df.resolve_value(f.node, other) if isinstance(other, ast.Name) else other
+                is_mag = isinstance(mag, ast.Call) and (df.is_xnp_call(mag) in ("norm", "abs") or (isinstance(mag.func, ast.Attribute) and mag.func.attr in ("norm", "abs")))
+                if not lits or not is_mag:
+                    continue
+                n_zero[0] += 1
+                big = sorted(x for x in lits if abs(x) > F32_TINY)
+                rep.decide(not big, "zero-threshold", f"{f.short}:threshold#{n_zero[0]}", f"`{ast.unparse(n)[:70]}` treats magnitudes below {sorted(lits)} as zero" +
+                           ("" if not big else f": {big[0]:g} exceeds the smallest normal single-precision number ({F32_TINY:g}), so right-hand sides / denominators of ordinary "
+                            "magnitude are treated as zero: the column is not normalised (or its step is suppressed) and the result does not scale with b"),
+                           detail="" if not big else "too-large", locs=[idx.loc(f.module, n)])
     if not n_recip:
         rep.note("finite-reciprocal: no reciprocal of a guarded denominator on this tree")
     # ---- the monitored loop runner only observes: it must not add stopping criteria of its own
     for f_, ok_, text_, node_ in lp.runner_transparency(idx):
         rep.decide(ok_, "runner-transparency", "while_loop_winfo", text_, detail="" if ok_ else "extra-exit", locs=[idx.loc(f_.module, node_)])
     rep.floor("loop-cap", 1)
+    rep.floor("zero-threshold", 2)
     rep.floor("stopping-test", 2)
     rep.floor("scale-homogeneity", 3)
     rep.floor("column-independence", 2)
